@@ -322,6 +322,12 @@ class iindex(dict):
             try:
                 if len(values) == 0:
                     values = values.astype(int)  # So bincount doesn't error.
+                elif values.dtype.kind in "iu" and values.max() > max(
+                    1 << 16, 8 * values.size
+                ):
+                    # bincount allocates max(values) + 1 counters: with a value
+                    # like 2 ** 31 that is 16 GiB. Count with numpy.unique.
+                    raise ValueError("Values too sparse for bincount.")
                 bcounts = numpy.bincount(values.flat)
                 distinct_values = bcounts.nonzero()[0].tolist()
                 counts = {i: bcounts[i].item() for i in distinct_values}
